@@ -358,15 +358,15 @@ def getParameters (upper : Text → Text) (ks : List Node) : Except PyErr (List 
   | some (pi, .grp _ sub) => .ok (paramLoop upper pi (indexed sub 0) [])
   | _ => .error .attributeError
 
-/-- `get_window()`: `token_next_by` returns a 2-tuple, which is always truthy, so the `return None` branch is dead:
-without an `Over` child `None.tokens` raises AttributeError; `tokens[-1]` of an empty `Over` raises IndexError. -/
-def getWindow (upper : Text → Text) (ks : List Node) : Except PyErr (Path × Node) :=
+/-- `get_window()`: `None` without an `Over` child; otherwise the last child of the `Over` group (`tokens[-1]` of an
+empty `Over` raises IndexError). -/
+def getWindow (upper : Text → Text) (ks : List Node) : Except PyErr (Option (Path × Node)) :=
   match tokenNextBy upper ks [.Over] [] .none with
   | some (oi, .grp _ sub) =>
     match sub.getLast? with
-    | some k => .ok ([oi, sub.length - 1], k)
+    | some k => .ok (some ([oi, sub.length - 1], k))
     | none => .error .indexError
-  | _ => .error .attributeError
+  | _ => .ok none
 
 /-! ## `Case.get_cases` -/
 
